@@ -75,6 +75,31 @@ def gen_program(rng, i, profile):
     return lines, nth
 
 
+def maint_programs(rng, n):
+    """Two-thread programs whose first thread ends in a maintenance run that has something to remove or admit, so
+    that the second thread's operations can land inside the check-then-act windows of that run (extended switch
+    points, `ext=1`): expiry sweep vs. invalidate / re-insert / update, admission vs. invalidate, eviction vs. update."""
+    out = []
+    for _ in range(n):
+        shape = rng.choice(["expire", "expire", "admit", "evict"])
+        k = 1
+        other = rng.choice([[f"X {k}", f"I {k} 102"], [f"I {k} 102"], [f"X {k}"], [f"G {k}", f"I {k} 102"], [f"X {k}", f"I {k} 102", f"G {k}"]])
+        if shape == "expire":
+            d = 3_000_000_000
+            mode = rng.choice(["ttl", "tti", "both"])
+            cfg = (f"cfg kind=conc cap=none ttl={d if mode != 'tti' else 'none'} tti={d if mode != 'ttl' else 'none'} "
+                   f"weigher=none hasher=id ext=1")
+            t0 = [f"I {k} 101", "S", f"D {d + rng.choice([0, 1])}", "S"] + ([f"G {k}"] if rng.random() < 0.4 else [])
+        elif shape == "admit":
+            cfg = f"cfg kind=conc cap={rng.choice(['none', 2])} ttl=none tti=none weigher={rng.choice(['none', 'value'])} hasher=id ext=1"
+            t0 = ([f"D 600000000"] if rng.random() < 0.5 else []) + [f"I {k} 101", "S"] + ([f"G {k}"] if rng.random() < 0.4 else [])
+        else:
+            cfg = f"cfg kind=conc cap=1 ttl=none tti=none weigher=none hasher=id ext=1"
+            t0 = [f"I {k} 101", "S", "G 2", "S", "G 2", "S", "I 2 201", "S"] + ([f"G {k}"] if rng.random() < 0.4 else [])
+        out.append(([cfg, "TH 0 " + " ; ".join(t0), "TH 1 " + " ; ".join(other)], 2))
+    return out
+
+
 def with_schedule(lines, sched, name):
     return (name, lines + ["SCHED " + " ".join(sched)] if sched else lines + [], )
 
@@ -224,6 +249,38 @@ def oracle_quiescent(lines, run):
     return None
 
 
+def oracle_conc_no_loss(lines, run):
+    """C03 under schedules: an insert that is the last modification of its key in EVERY linearisation (all other
+    inserts / invalidations of the key and every invalidate_all returned before it was invoked) must be what the
+    cache holds after quiescence, unless a capacity is configured or the entry has expired by the final reading."""
+    cfg = parse_cfg(lines[0].replace("kind=conc", "kind=sync"))
+    if run["final"] is None or cfg["cap"] is not None:
+        return None
+    ops = run["ops"]
+    if not ops:
+        return None
+    final_now = max([o["now1"] for o in ops if o["now1"] is not None] or [0])
+    s = SSnap(run["final"])
+    for w in ops:
+        if w["op"][0] != "I" or w["now1"] is None:
+            continue
+        k = int(w["op"][1])
+        others = [m for m in ops if m is not w and ((m["op"][0] in ("I", "X") and int(m["op"][1]) == k) or m["op"][0] == "A")]
+        if not all(before(m, w) for m in others):
+            continue
+        # idle timer: at least from the insert itself
+        if cfg["ttl"] is not None and final_now >= w["now0"] + cfg["ttl"]:
+            continue
+        if cfg["tti"] is not None and final_now >= w["now0"] + cfg["tti"]:
+            continue
+        e = s.map.get(k)
+        if e is None or str(e["v"]) != w["op"][2]:
+            return (f"t{w['t']} insert({k}, {w['op'][2]}) is the last modification of key {k} in every linearisation, nothing "
+                    f"expired (final clock {final_now}) and there is no capacity, but after quiescence the cache holds "
+                    f"{'nothing' if e is None else e['v']} for it")
+    return None
+
+
 def cell_trace(run):
     """Map actions in the order they took effect (linearisation step)."""
     acts = []
@@ -247,8 +304,8 @@ def hk_trace(run):
 ORACLES = {
     "C02": [oracle_termination, oracle_coherence],
     "C09": [oracle_termination],
-    "C07": [oracle_termination, oracle_coherence],
-    "quiescent": [oracle_termination, oracle_quiescent],
+    "C07": [oracle_termination, oracle_coherence, oracle_conc_no_loss],
+    "quiescent": [oracle_termination, oracle_quiescent, oracle_conc_no_loss],
 }
 
 
@@ -317,6 +374,20 @@ def fullqueue_cases(rng, n):
     return cases
 
 
+def explore_maint(pid, tier, seed):
+    """maintenance-race programs under prefix x prefix schedules (thread 0 parked at its i-th switch point, incl. the
+    check-then-act windows inside its maintenance runs, while thread 1 runs j switch points; then 0 to the end, then 1)"""
+    rng = random.Random(seed * 7919 + int(pid[1:]))
+    cases = []
+    for n, (lines, nth) in enumerate(maint_programs(rng, 10 if tier == "quick" else 60)):
+        cases.append((f"m{n}_seq", lines + ["RUN"]))
+        for i_ in range(0, 70):
+            for j_ in (1, 2, 3, 4, 6, 9, 14, 40):
+                sched = ["0"] * i_ + ["1"] * j_ + ["0"] * 200 + ["1"] * 200
+                cases.append((f"m{n}_q{i_}_{j_}", lines + ["SCHED " + " ".join(sched), "RUN"]))
+    return cases
+
+
 def accept_traces(kind, traces):
     """Runs the extracted Coq acceptors (Conc/Cell.v, Conc/HK.v) over action traces.
     Returns {name: verdict string}.  Silently empty if the driver has no such mode yet."""
@@ -350,6 +421,8 @@ def run(pid, tier, seed, model_ok, replay, nprog=None):
         for name, lines in C.load_corpus("conc"):
             cases.append((name, lines))
         cases += explore(pid, tier, seed, nprog or (60 if tier == "quick" else 600), 2)
+        if pid in ("C03", "C07", "C08", "C10", "C11", "C02"):
+            cases += explore_maint(pid, tier, seed)
     # uncontrolled real-thread stress (no scheduler): same oracles over real-time tickets
     stress = []
     if not replay and pid in ("C02", "C09", "C08", "C10", "C11"):
